@@ -75,6 +75,7 @@ void sym_inputs(void)
 #ifdef REPLAY
 #include "replay_inputs.inc"
 #else
+  SYM_FEED();
   SYM_ARR(in_sender); SYM_ARR(in_dbl); SYM_ARR(in_bfile); SYM_ARR(in_mfile);
   SYM(in_getinfo_fail); SYM(in_stat); SYM(in_openqq_fail); SYM(in_close_fail); SYM(in_unlink_fail);
   SYM(in_openfile_fail); SYM(in_read_fail);
